@@ -236,3 +236,27 @@ theorem nullModel_no_index (und : Bool) (W : AMat Int n) (binSwaps period : Nat)
         | ok v2 => obtain ⟨asgN, orc3, ds3⟩ := v2; simp
 
 end Bct.Signed
+
+namespace Bct.Signed
+variable {n : ℕ}
+
+/-- fewer than four nodes: the binary stage changes nothing, the sign pattern dealt onto is that of the input -/
+theorem nullModel_small (und : Bool) (W : AMat Int n) (binSwaps period : Nat) (orc : List (List Nat)) (ds : List Nat)
+    (hn : n < 4) {o : NullOut n} (h : nullModel und W binSwaps period orc ds = .ok o) : o.Wr = clearDiag W := by
+  unfold nullModel at h
+  split at h
+  · simp at h
+  · simp only [run_small und _ _ _ hn] at h
+    have hrew : (if (cellsWhere (clearDiag W) isPos false).length < n * (n - 1) then
+        (Except.ok (clearDiag W, ds) : Except Err (AMat Int n × List Nat)) else Except.ok (clearDiag W, ds)) = .ok (clearDiag W, ds) := by
+      split <;> rfl
+    rw [hrew] at h
+    simp only at h
+    split at h
+    · simp at h
+    · split at h
+      · simp at h
+      · simp only [Except.ok.injEq] at h
+        subst h; rfl
+
+end Bct.Signed
